@@ -32,7 +32,14 @@ def edmonds_karp(G, s, t):
         val += b
 
 def G_of(case):
-    return {int(k): [(int(v), int(c)) for v, c in a] for k, a in case["G"]}
+    G = {int(k): [(int(v), int(c)) for v, c in a] for k, a in case["G"]}
+    if case.get("share"):      # vertices with equal adjacency lists are bound to ONE list object (as `G[b] = G[a]` or dict.fromkeys(layer, adj) produce)
+        canon = {}
+        for k in G:
+            key = tuple(G[k])
+            if key in canon: G[k] = canon[key]
+            else: canon[key] = G[k]
+    return G
 
 class C08(Prop):
     translators = ['flow']   # ford_fulkerson / dfs_path regenerated from flow.py on every run
@@ -62,6 +69,18 @@ class C08(Prop):
             yield self.structured(rng)
         for _ in range(600 if tier == "quick" else 20000):
             yield self.random_case(rng)
+        # layers of twins: several vertices with the same successors and capacities, given once with one list per vertex and once sharing a single list object
+        for i in range(60 if tier == "quick" else 1500):
+            k = rng.randint(2, 4); k2 = rng.randint(1, 3)
+            L1 = list(range(1, 1 + k)); L2 = list(range(1 + k, 1 + k + k2)); t = 1 + k + k2
+            adj1 = [(v, rng.randint(1, 2)) for v in L2 if rng.random() < 0.8] or [(L2[0], 1)]
+            if i % 3 == 0: adj1 = adj1 + [(t, 1)]
+            adj2 = [(t, rng.randint(1, 3))]
+            G = {0: [(u, rng.randint(1, 3)) for u in L1]}
+            for u in L1: G[u] = list(adj1)
+            for v in L2: G[v] = list(adj2)
+            G[t] = []
+            yield dict(entry="ford_fulkerson", family="twin_layers" + ("_shared" if i % 2 else ""), G=[[kk, a] for kk, a in G.items()], s=0, t=t, share=bool(i % 2))
 
     def structured(self, rng):
         kind = rng.choice(["bip", "maxsize", "revisit", "opp"])
